@@ -1,0 +1,23 @@
+//go:build verif
+
+// Contracts for package agent, read by /verif/engine (govc). Comments only.
+package agent
+
+// ---------------------------------------------------------------- io.go (C19, C05)
+
+// Framing: varint(len) ++ bytes. The 5-byte header buffer suffices because protobuf messages
+// are shorter than 2 GiB.
+//@ func WriteMessage
+//@   props C19 C05
+//@   modifies nothing
+
+// The frame reader must not crash on any size the peer announces and any fragmentation of the
+// stream into reads (every behaviour of io.Reader: 0 <= n <= len(p) per call).
+//@ func ReadMessage
+//@   props C19 C05
+//@   requires buf != nil
+//@   modifies *buf, elems(*buf)
+//@   loop 1
+//@     modifies elems(b)
+//@     invariant read <= size && len(b) == int(size) && 0 <= read
+//@     invariant samearray(b, before(b)) && (samearray(b, old(*buf)[:len(b)]) || newinloop(b) || fresh(&b[0]))
